@@ -569,15 +569,30 @@ func ruleC06(c *Ctx) {
 	AR := "A.Conditions.AudienceRestrictions"
 	AU := AR + "[*].Audiences"
 	matchAtom := AU + "[*].Value == SP.AudienceURI"
-	nStore, nMatch, nZero := 0, 0, 0
+	nStore, nMatch, nZero, nSticky := 0, 0, 0, 0
 	for _, t := range vc.Terms {
 		if !t.accepting(vc.Root) {
 			continue
 		}
 		atoms := t.atoms()
 		pos := c.P.InstrPos(t.Instr)
+		// the final flag is a constant of the path, or what earlier restrictions left (the loop-carried content)
 		stored, known := finalFlag(t, "NotInAudience")
-		if !known {
+		unchanged := false
+		if fv, fst := t.finalFieldState(t.Vals[0], "NotInAudience"); !known && fst == "stored" {
+			if u, isU := fv.(*UnknownV); isU && strings.HasPrefix(u.Why, "loop-carried ") && strings.HasSuffix(u.Why, ".NotInAudience") {
+				unchanged = true
+			}
+		}
+		if known {
+			// a constant equal to what the path knows about the loop-carried content is "unchanged" too
+			for _, f := range t.St.facts {
+				if u, isU := f.Cond.(*UnknownV); isU && strings.HasPrefix(u.Why, "loop-carried ") && strings.HasSuffix(u.Why, ".NotInAudience") && f.Pol == stored {
+					unchanged = true
+				}
+			}
+		}
+		if !known && !unchanged {
 			c.bad("C06-R1", fname, "WarningInfo.NotInAudience is decided by the audience comparisons alone", pos, "the returned NotInAudience is not a constant of the path")
 		}
 		// any fact mentioning an audience value must be the exact match atom
@@ -590,6 +605,10 @@ func ruleC06(c *Ctx) {
 				}
 			}
 		}
+		// restrictions are conjunctive: a warning raised by one restriction is never lowered by another
+		if enter := loopEnterOver(c, t, AR); enter != nil {
+			nSticky += stickyFlag(c, "C06-R1", t, fname, "NotInAudience", enter)
+		}
 		outer, inner := loopShapeOf(atoms, AR), loopShapeOf(atoms, AU)
 		outerZero, outerGen := outer.Zero, outer.Gen
 		innerZero, innerGen, innerExhausted := inner.Zero, inner.Gen, inner.Exhausted
@@ -601,10 +620,10 @@ func ruleC06(c *Ctx) {
 			c.check(!stored, "C06-R1", fname, "no restriction => no warning", pos, "zero-restriction path stores nothing", "NotInAudience raised although the assertion has no AudienceRestriction")
 		case outerGen && matched && !noMatch:
 			nMatch++
-			c.check(!stored, "C06-R1", fname, "restriction with a matching audience => no warning from it", pos, "matching path stores nothing", "NotInAudience raised for a restriction that contains the configured audience")
+			c.check(!stored || unchanged, "C06-R1", fname, "restriction with a matching audience => no warning from it", pos, "matching path leaves the flag as earlier restrictions left it", "NotInAudience raised for a restriction that contains the configured audience")
 		case outerGen && (innerZero || (innerGen && noMatch && innerExhausted)) && !matched:
 			nStore++
-			c.check(stored, "C06-R1", fname, "restriction without matching audience => warning", pos, "exhausted inner loop stores true", "a restriction none of whose audiences matches does not raise NotInAudience")
+			c.check(stored && known, "C06-R1", fname, "restriction without matching audience => warning", pos, "exhausted inner loop stores true", "a restriction none of whose audiences matches does not raise NotInAudience")
 		default:
 			o := c.undecided("C06-R1", fname, "audience loop shape", pos, "path through the audience loops is not one of {no restriction, matched, exhausted-without-match}")
 			o.Path = t.pathDesc(c.P)
@@ -616,6 +635,8 @@ func ruleC06(c *Ctx) {
 	c.floor("C06-R1/no-match-paths", 2)
 	c.floor("C06-R1/match-paths", 1)
 	c.floor("C06-R1/zero-paths", 1)
+	c.count("C06-R1/stores-inside-restriction-loop", nSticky)
+	c.floor("C06-R1/stores-inside-restriction-loop", 1)
 
 	// R3
 	nOTU, nPR := 0, 0
@@ -713,6 +734,89 @@ func ruleC06(c *Ctx) {
 		c.count("C06-R4", n)
 		c.floor("C06-R4", 1)
 	}
+}
+
+// loopEnterOver: the loop-enter event of the generic iteration whose induction variable the path compares with len(coll).
+func loopEnterOver(c *Ctx, t *Terminal, coll string) *Event {
+	want := "len(" + coll + ")"
+	var findPhi func(v Val) *LoopPhiV
+	findPhi = func(v Val) *LoopPhiV {
+		switch x := v.(type) {
+		case *LoopPhiV:
+			return x
+		case *BinV:
+			if p := findPhi(x.X); p != nil {
+				return p
+			}
+			return findPhi(x.Y)
+		}
+		return nil
+	}
+	for _, f := range t.St.facts {
+		b, ok := f.Cond.(*BinV)
+		if !ok || ap(b.Y) != want {
+			continue
+		}
+		lp := findPhi(b.X)
+		if lp == nil {
+			continue
+		}
+		for _, e := range t.St.events {
+			if e.Kind == EvLoopEnter && e.Callee == lp.Loop {
+				if g, isB := constBool(e.Val); isB && g {
+					return e
+				}
+			}
+		}
+	}
+	return nil
+}
+
+// stickyFlag: every store to the returned object's boolean field after the loop was entered stores true or leaves the
+// value an earlier iteration left there (the loop-carried content itself, or false on a path that knows that content is
+// false). Returns the number of stores looked at.
+func stickyFlag(c *Ctx, rule string, t *Terminal, fname, field string, enter *Event) int {
+	if len(t.Vals) == 0 {
+		return 0
+	}
+	obj := t.Vals[0]
+	carried := func(v Val) bool {
+		u, ok := v.(*UnknownV)
+		return ok && strings.HasPrefix(u.Why, "loop-carried ") && strings.HasSuffix(u.Why, "."+field)
+	}
+	n := 0
+	for _, e := range t.St.events {
+		if e.Kind != EvStore || e.Seq <= enter.Seq {
+			continue
+		}
+		fa, ok := e.Addr.(*FieldAddrV)
+		if !ok || fa.Name != field || fa.X.Key() != obj.Key() {
+			continue
+		}
+		n++
+		pos := c.P.InstrPos(e.Instr)
+		what := "store to " + field + " inside the restriction loop keeps an earlier restriction's warning"
+		b, isConst := constBool(e.Val)
+		switch {
+		case isConst && b:
+			c.ok(rule, fname, what, pos, "stores true")
+		case carried(e.Val):
+			c.ok(rule, fname, what, pos, "stores the loop-carried value back")
+		case isConst && !b && func() bool {
+			for _, f := range t.St.facts {
+				if carried(f.Cond) && !f.Pol && f.Seq <= e.Seq {
+					return true
+				}
+			}
+			return false
+		}():
+			c.ok(rule, fname, what, pos, "stores false on a path where the loop-carried value is false")
+		default:
+			o := c.bad(rule, fname, what, pos, field+" is set to "+ap(e.Val)+" inside the loop over the restrictions: a restriction that matches (or is visited later) clears the warning an earlier restriction raised, so the last restriction decides instead of all of them")
+			o.Path = t.pathDesc(c.P)
+		}
+	}
+	return n
 }
 
 // accumulated: is v "the values elem of collection src, in order"? On the zero-iteration path v is an empty slice;
